@@ -179,5 +179,17 @@ class IrfKernelsAllSizes(Contract):
         return iter(())
 
     def static_obligations(self, tier):
+        import numpy as np
+
+        from contracts.unbounded import crosscheck
+
+        def a1(rng, k):
+            nt, nr, ni = rng.integers(0, 4), rng.integers(0, 3), rng.integers(1, 3)
+            return {"matrix": np.zeros((nt, nr)), "rates": rng.uniform(0.1, 2, nr), "times": rng.uniform(-3, 3, nt), "centers": rng.uniform(-1, 1, ni), "widths": rng.uniform(0.1, 1, ni), "scales": rng.uniform(0.5, 2, ni), "backsweep": bool(k % 2), "backsweep_period": 3.0}
+
+        def a2(rng, k):
+            nw, nt, nr, ni = rng.integers(0, 3), rng.integers(0, 3), rng.integers(0, 3), rng.integers(1, 3)
+            return {"matrix": np.zeros((nw, nt, nr)), "rates": rng.uniform(0.1, 2, nr), "times": rng.uniform(-3, 3, nt), "all_centers": rng.uniform(-1, 1, (nw, ni)), "all_widths": rng.uniform(0.1, 1, (nw, ni)), "scales": rng.uniform(0.5, 2, ni), "backsweep": bool(k % 2), "backsweep_period": 3.0}
+
         spec, _ = on_index_spec()
-        return records(spec, self.name, prefix="on_index.") + records(all_indices_spec(), self.name, prefix="all_indices.")
+        return records(spec, self.name, prefix="on_index.") + records(all_indices_spec(), self.name, prefix="all_indices.") + crosscheck(spec, a1) + crosscheck(all_indices_spec(), a2)
